@@ -257,9 +257,9 @@ def plan_C16(tier):
     n3 = [("vec", 3), ("array", 3), ("tuple", 3)] + ([("vec", 4), ("tuple", 4)] if tier != "quick" else [])
     for cont, n in n3:
         for fam in ("join", "try_join"):
-            items += fut(fam, cont, n, STD, p=2, sp=2, st=0)
+            items += fut(fam, cont, n, STD, p=2 if n < 4 else 1, sp=2, st=0)
         for fam in ("merge", "zip"):
-            items += strm(fam, cont, n, STD, p=1 if tier == "quick" else 2, i=1, sp=2, st=0)
+            items += strm(fam, cont, n, STD, p=1 if (tier == "quick" or n >= 4) else 2, i=1, sp=2, st=0)
             items += strm(fam, cont, 2, STD, p=2, i=2, sp=2, st=0)
     return {"items": items, "bounds": "std configuration only; as C01 with up to 2 spurious polls; deviation-bounded wide containers"}
 
@@ -333,7 +333,7 @@ def plan_C04(tier):
             if cont == "ext" and n != 2:
                 continue
             items += fut("join", cont, n, p=2 if tier == "quick" else 3, st=1, sp=1, ip=1 if n <= 2 else 0)
-        items += fut("join", cont, 4, p=1 if tier == "quick" else 2, sp=1 if tier != "quick" else 0)
+        items += fut("join", cont, 4, p=2, sp=1 if tier != "quick" else 0)
         if tier != "quick":
             items += fut("join", cont, 3, p=2, st=1, por=0)
             items += fut("join", cont, 5, p=1)
@@ -347,8 +347,12 @@ def plan_C05(tier):
     items = []
     for cont in FUT_CONT["try_join"]:
         for n in [0, 1, 2, 3]:
-            items += fut("try_join", cont, n, p=2 if (tier != "quick" or n < 3) else 1, st=1, sp=1, ip=1 if n <= 2 else 0)
-        items += fut("try_join", cont, 4, p=1, sp=1 if tier != "quick" else 0)
+            items += fut("try_join", cont, n, p=2, st=1, sp=1, ip=1 if n <= 2 else 0)
+        items += fut("try_join", cont, 4, p=1, sp=1)
+        if tier != "quick":
+            items += fut("try_join", cont, 4, p=2)
+            items += fut("try_join", cont, 3, p=3, st=1)
+            items += fut("try_join", cont, 5, p=1)
         if tier != "quick":
             items += fut("try_join", cont, 3, p=2, st=1, por=0)
     items += wide("fut", ["try_join"], tier)
@@ -376,8 +380,12 @@ def plan_C07(tier):
     items = []
     for cont in FUT_CONT["race_ok"]:
         for n in ([0, 1, 2, 3] if cont != "tuple" else [1, 2, 3]):
-            items += fut("race_ok", cont, n, p=2 if (tier != "quick" or n < 3) else 1, st=1, sp=1, ip=1 if n <= 2 else 0)
-        items += fut("race_ok", cont, 4, p=1, sp=1 if tier != "quick" else 0)
+            items += fut("race_ok", cont, n, p=2, st=1, sp=1, ip=1 if n <= 2 else 0)
+        items += fut("race_ok", cont, 4, p=1, sp=1)
+        if tier != "quick":
+            items += fut("race_ok", cont, 4, p=2)
+            items += fut("race_ok", cont, 3, p=3, st=1)
+            items += fut("race_ok", cont, 5, p=1)
         if tier != "quick":
             items += fut("race_ok", cont, 3, p=2, st=1, por=0)
     items += wide("fut", ["race_ok"], tier)
@@ -401,8 +409,9 @@ def str_family(fam, tier, zero_ok, i_small):
             else:
                 items += strm(fam, cont, n, p=1, i=i_small, st=1 if tier != "quick" else 0, sp=1)
         items += strm(fam, cont, 4, p=1, i=1, sp=0)
-        if tier != "quick":
+        if tier != "quick" or fam != "merge":
             items += strm(fam, cont, 3, p=2, i=2)
+        if tier != "quick":
             items += strm(fam, cont, 3, p=1, i=1, st=2, por=0)
     items += wide("str", [fam], tier)
     for n in range(5, 13):
@@ -498,6 +507,15 @@ def plan_C13(tier):
     # never-completing closure futures: saturation and structured completion
     for wnv in (1, 2, 3):
         items += co(src="stream", l=3, i=3, p=1, term="for_each", stack="l", lm=2, wp=1, wnv=wnv)
+    if tier != "quick":
+        # deeper: longer sources, more Pending answers per closure future, stale wake-ups
+        for lm in (1, 2, 3, 0):
+            items += co(src="stream", l=4, i=4, p=1, term="for_each", stack="l", lm=lm, wp=2, sw=0)
+            items += co(src="stream", l=3, i=3, p=2, term="for_each", stack="l", lm=lm, wp=2, st=1, sp=1)
+            items += co(src="vec", l=4, term="for_each", stack="l", lm=lm, wp=2, st=1, dr=1)
+            items += co(src="stream", l=3, i=3, p=1, term="for_each", stack="ml", lm=lm, wp=2, sw=0)
+        for wnv in (1, 2, 4, 3, 5, 6):
+            items += co(src="stream", l=4, i=4, p=1, term="for_each", stack="l", lm=2, wp=1, wnv=wnv, dr=1)
     return {"items": items, "bounds": "source length <=3 (4 thorough) from co() and Vec::into_co_stream, closure futures with <=2 Pending answers, limits {1,2,3,unlimited}, map/enumerate in front, drop at every step"}
 
 
@@ -515,6 +533,15 @@ def plan_C14(tier):
             items += co(src="stream", l=2, i=2, p=1, term=term, stack=stack, lm=1, tn=2, wp=1, dr=1)
         for wnv in (1, 2):
             items += co(src="stream", l=3, i=3, p=1, term=term, stack="l", lm=2, wp=1, wnv=wnv)
+            items += co(src="stream", l=3, i=3, p=1, term=term, stack=None, wp=1, wnv=wnv)
+        if tier != "quick":
+            for lm in ((1, 2, 0) if term == "try_for_each" else (0,)):
+                st = "l" if term == "try_for_each" else None
+                items += co(src="stream", l=4, i=4, p=1, term=term, stack=st, lm=lm, wp=2, sw=0)
+                items += co(src="stream", l=3, i=3, p=2, term=term, stack=st, lm=lm, wp=2, st=1, sp=1)
+                items += co(src="vec", l=4, term=term, stack=st, lm=lm, wp=2, st=1, dr=1)
+            for wnv in (1, 2, 4, 3, 5, 6):
+                items += co(src="stream", l=4, i=4, p=1, term=term, stack="l" if term == "try_for_each" else None, lm=2, wp=1, wnv=wnv, dr=1)
     return {"items": items, "bounds": "try_for_each and collect::<Result<Vec,_>> over source length <=3 (4 thorough), every Ok/Err assignment of the work futures, limits {1,2,unlimited}, drop at every step"}
 
 
